@@ -193,7 +193,19 @@ pub fn monitor_violations(rec: &RunRec, plan: &Plan, what: &str, out: &mut Vec<V
     }
 }
 
+pub fn trace_hash(trace: &[Tr]) -> u64 {
+    let mut h: u64 = 0xcbf29ce484222325;
+    for t in trace {
+        for x in [t.op as u64, t.call as u64, t.pos as u64, t.act as u64, t.len as u64] {
+            h ^= x;
+            h = h.wrapping_mul(0x100000001b3);
+        }
+    }
+    crate::rng::mix64(h)
+}
+
 pub fn count_faults(rec: &RunRec, st: &mut Stats) {
+    st.note_schedule(trace_hash(&rec.trace));
     st.add("fault.eintr", rec.fired_eintr as u64);
     st.add("fault.pending", rec.fired_pending as u64);
     st.add("fault.io_error", rec.fired_err as u64);
